@@ -188,35 +188,49 @@ def main(ctx):
     ctx.traces_validated(total)
     # ---- 3. crash points ----
     os.makedirs(tlc.WORK, exist_ok=True)
-    base = crashpoints.Run(workdir=tlc.WORK).run()
-    bad = crashpoints.judge(base, False)
-    ctx.require(not bad, f'fault-free scenario misbehaves: {bad}')
-    N = base['nwrites']
-    step = 3 if quick else 1
-    kinds = crashpoints.KINDS
-    for k in range(1, N + 1):
-        for i, kind in enumerate(kinds):
-            if quick and (k + i) % step:
-                continue
-            r = crashpoints.Run(k, kind, workdir=tlc.WORK).run()
-            ctx.count(('crash', k, kind))
-            bad = crashpoints.judge(r, True)
-            if bad:
-                ctx.violation({'module': 'CrashPoints', 'kind': kind,
-                               'clauses': sorted({b.split(':')[0]
-                                                  for b in bad})},
-                              f'fault {kind} at packet {k}/{N}: ' +
-                              '; '.join(bad[:3]),
-                              replay={'kind': 'crashpoint', 'k': k,
-                                      'fault': kind})
-            if r['loop_exceptions']:
-                ctx.violation({'module': 'CrashPoints', 'kind': kind,
-                               'loop_exception': r['loop_exceptions'][0][:60]},
-                              f'fault {kind} at packet {k}/{N}: exception '
-                              f'reached the event loop: '
-                              f'{r["loop_exceptions"][0]}',
-                              replay={'kind': 'crashpoint', 'k': k,
-                                      'fault': kind})
+    total_points = 0
+    for sname, scen, skw, qstep in (
+            ('main', None, {}, 3),
+            ('flow', crashpoints.scenario_flow,
+             dict(window=1024, max_pktsize=512), 5)):
+        base = crashpoints.Run(workdir=tlc.WORK, scenario=scen,
+                               server_kw=skw).run()
+        bad = crashpoints.judge(base, False)
+        ctx.require(not bad, f'fault-free scenario {sname} misbehaves: {bad}')
+        ctx.require(base['log'][-1:] == ['end'],
+                    f'fault-free scenario {sname} did not finish: '
+                    f'{base["log"][-3:]}')
+        N = base['nwrites']
+        total_points += N
+        step = qstep if quick else 1
+        kinds = crashpoints.KINDS
+        for k in range(1, N + 1):
+            for i, kind in enumerate(kinds):
+                if quick and (k + i) % step:
+                    continue
+                r = crashpoints.Run(k, kind, workdir=tlc.WORK, scenario=scen,
+                                    server_kw=skw).run()
+                ctx.count(('crash', sname, k, kind))
+                bad = crashpoints.judge(r, True)
+                if bad:
+                    ctx.violation({'module': 'CrashPoints', 'kind': kind,
+                                   'scenario': sname,
+                                   'clauses': sorted({b.split(':')[0]
+                                                      for b in bad})},
+                                  f'{sname}: fault {kind} at packet {k}/{N}: '
+                                  + '; '.join(bad[:3]),
+                                  replay={'kind': 'crashpoint', 'k': k,
+                                          'scenario': sname, 'fault': kind})
+                if r['loop_exceptions']:
+                    ctx.violation({'module': 'CrashPoints', 'kind': kind,
+                                   'scenario': sname, 'loop_exception':
+                                   r['loop_exceptions'][0][:60]},
+                                  f'{sname}: fault {kind} at packet {k}/{N}: '
+                                  f'exception reached the event loop: '
+                                  f'{r["loop_exceptions"][0]}',
+                                  replay={'kind': 'crashpoint', 'k': k,
+                                          'scenario': sname, 'fault': kind})
+    N = total_points
     ctx.coverage['crash_points'] = N
     ctx.assumptions += [
         'both endpoints are asyncssh (a peer that never answers CLOSE while '
